@@ -36,6 +36,16 @@ func main() {
 		fmt.Println("unknown harness", hdr.Harness)
 		os.Exit(2)
 	}
+	var pm struct {
+		Pair     []map[string]json.Number   `json:"pair"`
+		Relation string                     `json:"relation"`
+		Label    string                     `json:"label"`
+		Tables   map[string]map[string]int  `json:"tables"`
+	}
+	_ = json.Unmarshal(b, &pm)
+	if len(pm.Pair) == 2 {
+		os.Exit(replayPair(hdr.Harness, f, pm.Pair, pm.Relation, pm.Label, pm.Tables))
+	}
 	if err := verif.LoadModelBytes(b); err != nil {
 		fmt.Println(err)
 		os.Exit(2)
@@ -58,4 +68,65 @@ func main() {
 	default:
 		os.Exit(3)
 	}
+}
+
+// replayPair replays a 2-safety counterexample: the harness is run on two
+// inputs and the values it passed to verif.Functional / verif.Monotone are
+// compared.
+func replayPair(name string, f func(), pair []map[string]json.Number, relation, label string, tables map[string]map[string]int) int {
+	var obs [2]verif.Relation
+	for i := 0; i < 2; i++ {
+		m := map[string]any{"harness": name, "values": pair[i], "tables": tables}
+		mb, _ := json.Marshal(m)
+		if err := verif.LoadModelBytes(mb); err != nil {
+			fmt.Println(err)
+			return 2
+		}
+		st := verif.Run(f)
+		if st == "assume-failed" {
+			fmt.Printf("replay %s: input %d violates an assumption\n", name, i)
+			return 4
+		}
+		if strings.HasPrefix(st, "panic") {
+			fmt.Printf("replay %s: %s\n", name, st)
+			if strings.HasPrefix(st, "panic: verif.") {
+				return 2
+			}
+			return 3
+		}
+		r, ok := verif.Relations[label]
+		if !ok {
+			fmt.Printf("replay %s: relation %q not observed\n", name, label)
+			return 2
+		}
+		obs[i] = r
+	}
+	fmt.Printf("replay %s %s(%s): digits %v -> %v, digits %v -> %v\n", name, relation, label, obs[0].Digits, obs[0].Val, obs[1].Digits, obs[1].Val)
+	same := len(obs[0].Digits) == len(obs[1].Digits)
+	up := 0
+	for k := range obs[0].Digits {
+		if !same {
+			break
+		}
+		switch d := obs[1].Digits[k] - obs[0].Digits[k]; {
+		case d == 0:
+		case d == 1:
+			up++
+		default:
+			same = false
+		}
+	}
+	switch relation {
+	case "functional":
+		if same && up == 0 && obs[0].Val != obs[1].Val {
+			fmt.Println("  violated: equal digits, different values")
+			return 3
+		}
+	case "monotone":
+		if same && up == 1 && obs[1].Val < obs[0].Val {
+			fmt.Println("  violated: one severity step up lowers the value")
+			return 3
+		}
+	}
+	return 0
 }
